@@ -68,6 +68,9 @@ def shape_case(draw, ctx):
     y0 = draw(st.one_of(st.integers(-5, 5).map(float), fl(-1e4, 1e4)))
     y1 = draw(st.one_of(st.integers(-5, 5).map(float), fl(-1e4, 1e4)))
     e = draw(st.one_of(st.none(), st.sampled_from([1.0, 2.0, 3.0, 0.5]), fl(0.01, 5.0)))
+    # values next to the bottom of the normal range: value * distance underflows into subnormals (not judged)
+    y0 = 0.0 if 0 < abs(y0) < 1e-100 else y0
+    y1 = 0.0 if 0 < abs(y1) < 1e-100 else y1
     return dict(name=name, x0=x0, x1=x1, x=x, y0=y0, y1=y1, e=e, pos=pos)
 
 
